@@ -140,9 +140,13 @@ func readTLV(b []byte, tag byte) ([]byte, bool) {
 
 func drawModulus(t *rapid.T) *big.Int {
 	var bits int
-	switch gen.Uniform(t, 4, "modkind") {
+	switch gen.Uniform(t, 6, "modkind") {
 	case 0:
-		bits = gen.Pick(t, []int{1, 7, 8, 9, 15, 16, 1008, 1015, 1016, 1017, 1023, 1024, 2040, 2047, 2048, 2049, 3072, 4096, 4200}, "bits")
+		bits = gen.Pick(t, []int{1, 7, 8, 9, 15, 16, 1008, 1015, 1016, 1017, 1023, 1024, 2040, 2047, 2048, 2049, 3072, 4096, 4200, 6144, 7400, 7680, 8192, 16384}, "bits")
+	case 4:
+		bits = 2048 // the size every deployed key has: fast paths live here
+	case 5:
+		bits = gen.UniformRange(t, 4200, 17000, "bits") // encodings beyond 512 / 1024 / 2048 bytes
 	case 1:
 		bits = gen.UniformRange(t, 1, 300, "bits") // DER short/long length forms around 127/128 content bytes
 	case 2:
@@ -164,7 +168,7 @@ func drawModulus(t *rapid.T) *big.Int {
 }
 
 func TestRSATokenKeyEncoding(t *testing.T) {
-	s := rt.S("rsa-token-key").SetRule("RSA public keys drawn as numbers (modulus 1..4200 bits incl. DER length-form and leading-00 boundaries, exponent in {3,17,65537,2^31-1} or drawn) and the 2048-bit pool keys: UnmarshalTokenKey inverts both SPKI forms, the PSS form equals the harness's DER template, MarshalTokenKey(legacy flag) selects the form; non-trivial = every key; distinct by (N, E)")
+	s := rt.S("rsa-token-key").SetRule("RSA public keys drawn as numbers (modulus 1..17000 bits incl. DER length-form and leading-00 boundaries, a fifth of them exactly 2048 bits, exponent in {3,17,65537,2^31-1} or drawn) and the 2048-bit pool keys: UnmarshalTokenKey inverts both SPKI forms, the PSS form equals the harness's DER template, MarshalTokenKey(legacy flag) selects the form; non-trivial = every key; distinct by (N, E)")
 	pool := gen.RSAPool()
 	// decoded keys are HELD across later decodes (a directory of issuer keys): each must keep the value it was decoded with
 	type held struct {
@@ -277,9 +281,22 @@ func TestKeyIDs(t *testing.T) {
 		var again func() []byte
 		switch typ {
 		case 1:
-			key := gen.OPRFKey(oprf.SuiteP384, gen.Seed().Draw(t, "keyseed"))
+			keySeed := gen.Seed().Draw(t, "keyseed")
+			key := gen.OPRFKey(oprf.SuiteP384, keySeed)
 			kb, _ := key.MarshalBinary()
 			x, y := elliptic.P384().ScalarBaseMult(kb)
+			if gen.Uniform(t, 4, "shortX") == 0 {
+				// a key whose public X coordinate has a zero top byte (1 key in 256; found by searching derived keys): the compressed
+				// encoding is still 49 bytes
+				for c := 0; c < 6000 && len(x.Bytes()) == 48; c++ {
+					key = gen.OPRFKey(oprf.SuiteP384, append(append([]byte{}, keySeed...), byte(c), byte(c>>8), 0x5e))
+					kb, _ = key.MarshalBinary()
+					x, y = elliptic.P384().ScalarBaseMult(kb)
+				}
+				if len(x.Bytes()) < 48 {
+					s.Class("type1-public-X-with-leading-zero-byte")
+				}
+			}
 			ser := elliptic.MarshalCompressed(elliptic.P384(), x, y)
 			h := sha256.Sum256(ser)
 			wantID = h[:]
@@ -316,12 +333,15 @@ func TestKeyIDs(t *testing.T) {
 		case 2:
 			idx := gen.RSAKey().Draw(t, "rsakey")
 			k := gen.RSAPool()[idx]
+			if gen.Uniform(t, 3, "smallExponent") == 0 {
+				k = gen.Pick(t, gen.RSASmallExponentKeys(), "smallE") // 2048 bits, e = 3 / 17 / 257
+			}
 			h := sha256.Sum256(ref.TokenKeyPSS(k.N, big.NewInt(int64(k.E))))
 			wantID = h[:]
 			iss2 := type2.NewBasicPublicIssuer(k)
 			id = iss2.TokenKeyID()
 			again = iss2.TokenKeyID
-			sess, err := gen.NewSession(t, 2, gen.SessionOpts{RKeyIdx: idx})
+			sess, err := gen.NewSession(t, 2, gen.SessionOpts{RKeyIdx: idx, RKey: k})
 			if err != nil {
 				t.Fatalf("harness: %v", err)
 			}
@@ -329,9 +349,12 @@ func TestKeyIDs(t *testing.T) {
 		case 3:
 			idx := gen.RSAKey().Draw(t, "rsakey")
 			k := gen.RSAPool()[idx]
+			if gen.Uniform(t, 3, "smallExponent") == 0 {
+				k = gen.Pick(t, gen.RSASmallExponentKeys(), "smallE")
+			}
 			h := sha256.Sum256(ref.TokenKeyPSS(k.N, big.NewInt(int64(k.E))))
 			wantID = h[:]
-			sess, err := gen.NewSession(t, 3, gen.SessionOpts{RKeyIdx: idx})
+			sess, err := gen.NewSession(t, 3, gen.SessionOpts{RKeyIdx: idx, RKey: k})
 			if err != nil {
 				t.Fatalf("harness: %v", err)
 			}
